@@ -415,4 +415,142 @@ theorem while_dead (i : Nat) : ∀ (n f : Nat) (k : ThetaSt OSt) (m : St), Rel P
           rw [whileF_dead _ _ _ _ _ hd]; exact hd
 end Loop5
 
+
+/-! ### one iteration of the main loop -/
+
+theorem headStep_err_iff (P : Params) (i : Nat) (s : St) (he0 : s.err = none) :
+    (headStep P i s).err ≠ none ↔
+      ¬ (0 ≤ s.lenList ∧ s.lenList ≤ P.n ∧ (levelSum s.level s.lenList.toNat).isSome = true) := by
+  by_cases h : 0 ≤ s.lenList ∧ s.lenList ≤ P.n
+  · cases hS : levelSum s.level s.lenList.toNat with
+    | none => simp [headStep, he0, h, hS, St.fail]
+    | some S => simp [headStep, he0, h, hS, St.emit]
+  · simp [headStep, he0, h, St.fail]
+    intro h1 h2; exact absurd ⟨h1, h2⟩ h
+
+theorem isoStep_err_iff (P : Params) (i : Nat) (s : St) (he0 : s.err = none) :
+    (isoStep P i s).err ≠ none ↔
+      ¬ (idxOK (s.lenList - 1) P.n = true ∧ (s.q (s.lenList - 1).toNat).isSome = true) := by
+  by_cases hidx : idxOK (s.lenList - 1) P.n = true
+  · have hidx' := hidx
+    simp [idxOK] at hidx'
+    obtain ⟨c, hc⟩ : ∃ c : Nat, s.lenList = (c : Int) + 1 := ⟨(s.lenList - 1).toNat, by omega⟩
+    have h1 : idxOK (c : Int) P.n = true := by simp [idxOK]; omega
+    have hct : (s.lenList - 1).toNat = c := by omega
+    rw [hct]
+    cases ho : s.q c with
+    | none => simp [isoStep, he0, hc, h1, ho, St.fail]
+    | some kk => simp [isoStep, he0, hc, h1, ho, St.emit]
+  · simp [isoStep, he0, hidx, St.fail]
+
+theorem ev_loadR3_bad (o : OSt) (s : Int) (h : ¬ o.inb 3 s = true) : (ev o 17 [3, s]).bad = true := by
+  by_cases hb : o.bad = true
+  · simp [ev, hb]
+  · have hb' : o.bad = false := by simpa using hb
+    simp [ev, hb', h, OSt.fail]
+
+theorem ev_step_bad (o : OSt) (x i y z : Int) (h : o.r1 = none) : (ev o 12 [x, i, y, z]).bad = true := by
+  by_cases hb : o.bad = true
+  · simp [ev, hb]
+  · have hb' : o.bad = false := by simpa using hb
+    by_cases hs : o.inb 5 i = true
+    · simp [ev, hb', hs, h, OSt.fail]
+    · simp [ev, hb', hs, OSt.fail]
+
+theorem head_rel (P : Params) (k : ThetaSt OSt) (m : St) (R : Rel P k m) (i L S : Nat) :
+    Rel P { k with j := ((0 + L : Nat) : Int), len_count := (S : Int) }
+      { m with lenCount := (S : Int), trace := m.trace ++ [.head i (L : Int) (S : Int)] } := by
+  constructor
+  · exact R.kf
+  · exact R.kb
+  · exact R.me
+  · exact R.ix
+  · exact R.ll
+  · rfl
+  · exact R.ad
+  · exact R.lvs
+  · exact R.lvg
+  · exact R.s1
+  · exact R.s2
+  · exact R.s3
+  · exact R.s4
+  · exact R.s5
+  · exact R.a1
+  · exact R.a2
+  · exact R.a3
+  · exact R.a4
+  · exact R.tg
+  · have := R.lg
+    simp only [logs, Prod.mk.injEq] at this
+    simp [logs_append, this.1, this.2.1, this.2.2, logs, mDbls, mSteps, mKers]
+
+section Iter
+variable (P : Params) (oracle : Nat → Bool) (fuel : Nat) (ea : Int)
+
+/-- the isogeny part dies when the kernel slot of Q is out of bounds / uninitialised -/
+theorem body3_dead (k k1 k2 : ThetaSt OSt) (i : Nat) (hf : k.fault = none) (hb : k.obs.bad = false)
+    (hk1 : whileF (ThetaSt.live obs)
+      (fun s => match theta_chain_comput_strategy_loop4_cond obs P.row oracle fuel P.n ea s with | .ok b => b | .error _ => true)
+      (fun s => match theta_chain_comput_strategy_loop4_cond obs P.row oracle fuel P.n ea s with
+        | .ok _ => theta_chain_comput_strategy_loop4_body obs P.row oracle fuel P.n ea s | .error f => s.fail f)
+      (fun s => s.fail .fuel) fuel { k with len_count := 0, j := 0 } = k1)
+    (h1f : k1.fault = none) (h1b : k1.obs.bad = false)
+    (hk2 : whileF (ThetaSt.live obs)
+      (fun s => match theta_chain_comput_strategy_loop5_cond obs P.row oracle fuel P.n ea s with | .ok b => b | .error _ => true)
+      (fun s => match theta_chain_comput_strategy_loop5_cond obs P.row oracle fuel P.n ea s with
+        | .ok _ => theta_chain_comput_strategy_loop5_body obs P.row oracle fuel P.n ea s | .error f => s.fail f)
+      (fun s => s.fail .fuel) fuel k1 = k2)
+    (h2f : k2.fault = none) (h2b : k2.obs.bad = false) (hi : k2.i = (i : Int))
+    (hs3 : k2.obs.size 3 = (P.n : Int)) (hs4 : k2.obs.size 4 = (P.n : Int))
+    (ha34 : k2.obs.arr 4 (k2.len_list - 1) = k2.obs.arr 3 (k2.len_list - 1))
+    (hC : ¬ (k2.obs.inb 3 (k2.len_list - 1) = true ∧ (k2.obs.arr 3 (k2.len_list - 1)).isSome = true))
+    (hea : ea = 1 ∨ (ea = 0 ∧ (i : Int) < (P.n : Int) - 3)) :
+    Dead (theta_chain_comput_strategy_loop3_body obs P.row oracle fuel P.n ea k) := by
+  unfold theta_chain_comput_strategy_loop3_body
+  rw [step_live _ k hf hb]
+  dsimp only
+  rw [step_live _ { k with len_count := 0 } hf hb]
+  dsimp only
+  rw [step_live _ { k with len_count := 0, j := 0 } hf hb]
+  erw [hk1]
+  rw [step_live _ k1 h1f h1b]
+  erw [hk2]
+  by_cases hin : k2.obs.inb 3 (k2.len_list - 1) = true
+  · have hin' := hin
+    simp only [OSt.inb, hs3, Bool.and_eq_true, decide_eq_true_eq] at hin'
+    obtain ⟨c, hl⟩ : ∃ c : Nat, k2.len_list = (c : Int) + 1 := ⟨(k2.len_list - 1).toNat, by omega⟩
+    have hcc : k2.len_list - 1 = (c : Int) := by omega
+    rw [hcc] at ha34 hC hin
+    have hv : k2.obs.arr 3 (c : Int) = none := by
+      cases hq : k2.obs.arr 3 (c : Int) with
+      | none => rfl
+      | some v => exact absurd ⟨hin, by simp [hq]⟩ hC
+    have hw : k2.obs.arr 4 (c : Int) = none := by rw [ha34, hv]
+    have hc0 : (0 : Int) ≤ (c : Int) := by omega
+    have hc1 : (c : Int) < (P.n : Int) := by omega
+    have hbadS : ∀ x y z w, (ev { size := k2.obs.size, arr := k2.obs.arr, kexp := k2.obs.kexp, r1 := none, r2 := none, tog := k2.obs.tog, bad := false, dbls := k2.obs.dbls, steps := k2.obs.steps, kers := k2.obs.kers } 12 [x, y, z, w]).bad = true :=
+      fun x y z w => ev_step_bad _ x y z w rfl
+    rcases hea with hea | ⟨hea, hi3⟩
+    · subst hea
+      by_cases h3 : (i : Int) = (P.n : Int) - 3
+      · have h3' := eq_true h3
+        simp [Dead, ThetaSt.step, ThetaSt.live, obs_ev, SqiProofs.SkelThetaSim.obs_ok, h2f, h2b, hi, hl, EvKind.loadR, EvKind.step, truthy,
+          ev_loadR3_s, ev_loadR4_s, OSt.inb, hs3, hs4, hv, hw, hc0, hc1, hbadS, h3']
+      · have h3' := eq_false h3
+        by_cases h2 : (i : Int) = (P.n : Int) - 2
+        · have h2' := eq_true h2
+          simp [Dead, ThetaSt.step, ThetaSt.live, obs_ev, SqiProofs.SkelThetaSim.obs_ok, h2f, h2b, hi, hl, EvKind.loadR, EvKind.step, truthy,
+          ev_loadR3_s, ev_loadR4_s, OSt.inb, hs3, hs4, hv, hw, hc0, hc1, hbadS, h3', h2']
+        · have h2' := eq_false h2
+          simp [Dead, ThetaSt.step, ThetaSt.live, obs_ev, SqiProofs.SkelThetaSim.obs_ok, h2f, h2b, hi, hl, EvKind.loadR, EvKind.step, truthy,
+          ev_loadR3_s, ev_loadR4_s, OSt.inb, hs3, hs4, hv, hw, hc0, hc1, hbadS, h3', h2']
+    · subst hea
+      have h3' : ((i : Int) = (P.n : Int) - 3) = False := eq_false (by omega)
+      have h2' : ((i : Int) = (P.n : Int) - 2) = False := eq_false (by omega)
+      simp [Dead, ThetaSt.step, ThetaSt.live, obs_ev, SqiProofs.SkelThetaSim.obs_ok, h2f, h2b, hi, hl, EvKind.loadR, EvKind.step, truthy,
+          ev_loadR3_s, ev_loadR4_s, OSt.inb, hs3, hs4, hv, hw, hc0, hc1, hbadS, h3', h2']
+  · have hbadL := ev_loadR3_bad k2.obs (k2.len_list - 1) hin
+    simp [Dead, ThetaSt.step, ThetaSt.live, obs_ev, SqiProofs.SkelThetaSim.obs_ok, h2f, h2b, EvKind.loadR, hbadL]
+end Iter
+
 end SqiProofs.SkelThetaConv
